@@ -570,7 +570,7 @@ class ModulePrinter(ExpressionPrinter):
             if hasattr(node, 'kwargs') and node.kwargs is not None:
                 delimiter.new_item()
                 self.printer.operator('**')
-                self.visit(node.kwargs)
+                self._expression(node.kwargs)
 
         self.printer.delimiter(':')
 
